@@ -150,6 +150,67 @@ def _testbool(c, b):
             z3.Z3_OP_EQ: x == y, z3.Z3_OP_DISTINCT: x != y}.get(k, False)
 
 
+def _test3(c, b, tol=1e-6):
+    """three-valued evaluation of a Boolean term at the test point: True / False / None (too close to call)"""
+    if z3.is_true(b):
+        return True
+    if z3.is_false(b):
+        return False
+    k = b.decl().kind()
+    ch = b.children()
+    if k == z3.Z3_OP_NOT:
+        r = _test3(c, ch[0], tol)
+        return None if r is None else (not r)
+    if k == z3.Z3_OP_AND:
+        rs = [_test3(c, x, tol) for x in ch]
+        return False if any(r is False for r in rs) else (None if any(r is None for r in rs) else True)
+    if k == z3.Z3_OP_OR:
+        rs = [_test3(c, x, tol) for x in ch]
+        return True if any(r is True for r in rs) else (None if any(r is None for r in rs) else False)
+    if k == z3.Z3_OP_IMPLIES:
+        return _test3(c, z3.Or(z3.Not(ch[0]), ch[1]), tol)
+    if k == z3.Z3_OP_ITE:
+        g = _test3(c, ch[0], tol)
+        return None if g is None else _test3(c, ch[1] if g else ch[2], tol)
+    if k in (z3.Z3_OP_LE, z3.Z3_OP_LT, z3.Z3_OP_GE, z3.Z3_OP_GT, z3.Z3_OP_EQ, z3.Z3_OP_DISTINCT) and len(ch) == 2 \
+            and not z3.is_bool(ch[0]):
+        x, y = testval(c, ch[0]), testval(c, ch[1])
+        if x != x or y != y or abs(x) == math.inf or abs(y) == math.inf:
+            return None
+        if abs(x - y) <= tol * (1 + abs(x) + abs(y)):
+            return None
+        return {z3.Z3_OP_LE: x <= y, z3.Z3_OP_LT: x < y, z3.Z3_OP_GE: x >= y, z3.Z3_OP_GT: x > y,
+                z3.Z3_OP_EQ: False, z3.Z3_OP_DISTINCT: True}[k]
+    if k == z3.Z3_OP_EQ and len(ch) == 2:
+        a, d = _test3(c, ch[0], tol), _test3(c, ch[1], tol)
+        return None if a is None or d is None else (a == d)
+    return None
+
+
+def testpoint_refutation(c, goal):
+    """after the solver answered `unknown`: does the path's pseudo-random test point (inputs inside their
+    declared ranges, implicitly defined values computed from their definitions) lie on this path and
+    violate `goal` by a clear numeric margin?  Returns the input assignment or None.  Such an assignment is
+    only a *candidate*: it counts only if the float replay on the real package fails the same obligation."""
+    try:
+        for ent in c.pc:
+            if ent.kind == "def":
+                continue
+            if _test3(c, ent.expr) is not True:
+                return None
+        if _test3(c, goal) is not False:
+            return None
+        out = {}
+        for name in c.inputs:
+            v = c.tv.get(name)
+            if v is None:
+                v = testval(c, c.inputs[name])
+            out[name] = F(v).limit_denominator(1 << 24)
+        return out
+    except (RecursionError, z3.Z3Exception):
+        return None
+
+
 def _close_tv(a, b):
     if a != a or b != b:
         return True          # not evaluable: keep the pair
@@ -1327,6 +1388,12 @@ def prove(name, cond, kind="post", margin=None):
             verdict, how = v1, h1
         elif verdict == "unsat":
             how = h1 if how == "rewriter" else how
+    if verdict not in ("sat", "unsat") and c.mode == "sym":
+        w = testpoint_refutation(c, e)
+        if w is not None:
+            rec.update(verdict="sat", how="testpoint-after-unknown", model=w)
+            c.obligations.append(rec)
+            return False
     rec.update(verdict=verdict, how=how)
     if verdict == "sat":
         best = model
